@@ -74,6 +74,18 @@ CHECKS = {
     technique="exhaustive enumeration of argument/return structures x bodies x call sequences on the real code with the recording backend; witness-space enumeration for the output ties",
     text="21 argument shapes (scalars int/bool/float/str/None/secret, nested lists, tuples and dicts to depth 2, empty containers) alone and in pairs x 6 bodies (identity, product, comparisons, constant, mixed structure with plain members, the same wire twice) x call sequences of length 1..3 in one run: the ordered list of public variables created by each call equals flatten(numeric arguments) ++ flatten(secret results), nothing else becomes public, the returned structure equals the undecorated function on plain values, every output variable is uniquely determined by the computed wire (all witness choices enumerated), keyword arguments raise ValueError without creating anything.",
     note="Bodies avoid division so that the known quotient finding does not interfere with the uniqueness oracle."),
+ "C18": dict(cat="model_checking", design="3/C18, 2.7",
+    technique="exhaustive enumeration of termination points (statement position x way of terminating x earlier caught event x autoprove x backend), one fresh interpreter each, compared with a reference function",
+    text="Script template with three tracing statements, stopped before statement 0..3 in 13 ways (fall off the end, sys.exit with no argument/None/0/False/1/str, uncaught ValueError, KeyboardInterrupt, raise SystemExit(0/1), builtin exit(0/1)), after no / a caught sys.exit(1) / a caught exception, with autoprove on and off, for snarkjs, zkinterface, zkifbellman, qaptools (failing tool stubs) and nobackend: exit status 0 and autoprove => prove() ran exactly once and the decoded artefacts hold exactly the executed statements; otherwise prove() did not run and no artefact exists; the exit hook itself never raises.",
+    note="prove() is counted by wrapping backend.prove inside the child script (no change to pysnark). Two genuine defects of the interposition are listed as known findings keyed on the termination mode / caught event."),
+ "C19": dict(cat="model_checking", design="3/C19, 2.7",
+    technique="exhaustive enumeration of configurations (environment value x pre-imported modules and import order x dependency availability), one fresh interpreter each, compared with a reference selection function",
+    text="PYSNARK_BACKEND in {unset, the 8 registry names, 'bogus', ''} x pre-imports in {none, each registry module, 4 pairs in both orders} x {FlatBuffers, qaptools executables, libsnark extension} each present or absent: the selected name is the pre-imported backend, else the named one (or import fails loudly when it cannot be loaded), else an 'unknown backend' message followed by the first loadable backend in registry order; backend_name identifies the module in effect, the field (get_modulus) and the module that actually receives a probe constraint; the selected backend offers the complete interface.",
+    note="libsnark is a stub extension (loadability only); FlatBuffers availability = builder shim on PYTHONPATH or not."),
+ "C20": dict(cat="model_checking", design="3/C20",
+    technique="exhaustive enumeration of a bounded input space for the hash gadgets on the real code (three fields), differential against an independent plain-integer implementation; parameter selection by process-level enumeration",
+    text="Per field: Poseidon permutation on all states over {0,1,2,p-1}^5 with at most two non-zero entries plus the published input (published x5_254_5 / x5_255_5 vectors reproduced), sponge on all messages of length 0..3 over {0,1,p-1} and longer bit patterns up to 3 blocks with integer-, boolean- and fixed-point-typed inputs, equal constraint counts for equal shapes, completeness and value==wire; padding injectivity on the real padding code for ALL messages up to 9 elements over {0,1}; subset-sum hash on all bit vectors up to length 8 (10) in plain / integer-typed / boolean-typed / mixed form against an independent SHA-512 coefficient derivation; in fresh interpreters, for every way of selecting each backend the parameter table in effect is the one registered for runtime.backend_name or the import fails loudly.",
+    note="Reference implementation pv/ref_poseidon.py uses the same constant tables (their derivation is not re-checked; the published vectors pin two of the three)."),
 }
 
 NOT_YET = {}
